@@ -583,7 +583,8 @@ func (c *Ctx) mustRow(hm *handlerModel, key, rule string, cls []string, required
 				return true
 			}
 			for _, k := range cls {
-				if ex.Seen[k] == 0 {
+				if ex.Seen[k] == 0 && !(k == "TIMERDEL" && g(vTimer) == "F") {
+					// clearing the timer is moot on a path that established that none exists
 					return false
 				}
 			}
